@@ -63,6 +63,17 @@ def timer_table(ctx):
                                 continue
                             here = frozenset(f for f in (mf.at(n) or ()) if not norm.fact_killed(f, writes))
                             table[attr].append({"fn": fn, "node": n, "delay": s["delay"], "handler": s["handler"], "facts": here | frozenset(s["facts"] or ()), "via": h.qualname})
+    # a private helper that is only ever *called as a statement* from the hierarchy (never handed out as a callback) runs under the facts of
+    # its call sites: the "configured" guard is then owed at those (derived) sites, not inside the helper
+    for attr, sites in table.items():
+        for s in sites:
+            h = s["fn"]
+            if "via" in s or not h.name.startswith("_") or h.name.startswith("__") or h.parent is not None:
+                continue
+            refs = sum(1 for fn in funcs for x in ast.walk(fn.node) if isinstance(x, ast.Attribute) and x.attr == h.name and isinstance(x.ctx, ast.Load))
+            derived = sum(1 for x in sites if x.get("via") == h.qualname)
+            if refs and refs == derived:
+                s["guard_at_callers"] = True
     return table
 
 
@@ -79,7 +90,7 @@ def rule_table(ctx):
             ctx.ob(f"{attr} @ {fn.qualname}: handler is {handler}", s["handler"] == handler, f"handler {s['handler']}", fn.loc(s["node"].ast))
             ctx.ob(f"{attr} @ {fn.qualname}: delay is {delay}", s["delay"] == delay, f"delay {s['delay']}", fn.loc(s["node"].ast))
             f = s["facts"] or ()
-            pos = ("lt", ("c", 0), ("e", delay), True) in f or ("truth", delay, None, True) in f
+            pos = ("lt", ("c", 0), ("e", delay), True) in f or ("truth", delay, None, True) in f or s.get("guard_at_callers", False)
             ctx.ob(f"{attr} @ {fn.qualname}: armed only when the timeout is configured (> 0)", pos,
                    "timer armed without testing that its timeout/interval is positive", fn.loc(s["node"].ast))
     for attr in t:
@@ -283,7 +294,91 @@ def rule_reasons(ctx):
         ctx.ob(f"{handler}: reports its own reason ('{key}')", ok, "reason string not set before the drop / does not name this timeout", h.loc(c))
 
 
+def rule_ping_cycle(ctx):
+    """"automatic pings keep being sent at the configured interval for as long as the connection is open": the ping cycle is a small state
+    machine over (ping scheduled, ping outstanding, pong timeout armed).  Every transition of it -- the ping timer firing, the matching pong
+    arriving, other traffic standing in for the pong -- is evaluated cell-wise (sa.core.tiny) from each state it can run in, and must leave
+    the cycle alive: a next ping is scheduled or a ping is outstanding, and an outstanding ping has its pong timeout armed when one is
+    configured.  Helpers are evaluated in place, so where the re-arming is written does not matter."""
+    from ..core.tiny import Tiny, Sym, Buf
+    from .common import inline_private
+    ctx.rule("C17.6-ping-cycle-stays-alive")
+    cls = ctx.program.cls(WSP)
+    S_OPEN = ctx.program.class_const(cls, "STATE_OPEN")
+    inl = inline_private(ctx, cls, exclude=("_sendAutoPing", "_onPong", "_onPing", "onAutoPong", "onAutoPingTimeout", "_fail_connection"))
+    send = ctx.program.func(f"{WSP}._sendAutoPing")
+    cancel = ctx.program.func(f"{WSP}._cancelAutoPingTimeoutCall")
+    pcf = ctx.program.func(f"{WSP}.processControlFrame")
+    for f in (send, cancel, pcf):
+        ctx.analysed(f)
+    an = get_analysis(ctx)
+    g, mf, res = an.get(pcf)
+    arms = [x for x in ast.walk(pcf.node) if isinstance(x, ast.If) and ("eq", "self.current_frame.opcode", ("c", 10), True) in norm.atoms(x.test, True, res)]
+    ctx.require(len(arms) == 1, "processControlFrame: PONG arm not found")
+    strip = lambda fn: [s_ for s_ in fn.node.body if not (isinstance(s_, ast.Expr) and isinstance(s_.value, ast.Constant))]
+    P = Buf(0, 16)
+
+    def run(body, timeout, pendingCall, pending, timeoutCall, payload=None):
+        timers = []
+        pos = [100]
+
+        def oracle(fname, args, kwargs=None):
+            if fname.endswith("call_later"):
+                t_ = Sym("timer", methods={"cancel": lambda: None}, delay=args[0] if args else None, handler=args[1] if len(args) > 1 else None)
+                timers.append(t_)
+                return t_
+            if fname.endswith("struct.unpack"):
+                return [7]
+            if fname.endswith("time_ns"):
+                return 10 ** 9
+            if fname.endswith("struct.pack") or fname.endswith("urandom"):
+                pos[0] += 4  # successive pieces are adjacent octets of the ping payload (only its identity matters here)
+                return Buf(pos[0] - 4, pos[0])
+            return Sym(f"<{fname}>")
+        mk = lambda nm: Sym(nm, methods={"cancel": lambda: None})
+        env = {"self": Sym("protocol"), "self.state": S_OPEN, "WebSocketProtocol.STATE_OPEN": S_OPEN, "self.autoPingInterval": 5, "self.autoPingTimeout": timeout,
+               "self.autoPingSize": 16, "self.autoPingPendingSeq": 1, "self.autoPingPendingSent": 1, "self.log": Sym("log"),
+               "self.factory": Sym("factory", _batched_timer=Sym("batched-timer")), "self.autoPingRestartOnAnyTraffic": True,
+               "self.autoPingPendingCall": mk("scheduled-ping") if pendingCall else None, "self.autoPingPending": P if pending else None,
+               "self.autoPingTimeoutCall": mk("pong-timeout") if timeoutCall else None, "self.current_frame": Sym("frame", opcode=10),
+               "self._sendAutoPing": Sym("method _sendAutoPing"), "self.onAutoPingTimeout": Sym("method onAutoPingTimeout"), "payload": payload}
+        t = Tiny(env, default_call=oracle, inline_self=inl, opaque_globals=True)
+        r = t.run(body)
+        me = t.env["self"]
+        get = lambda nm: t.env.get(f"self.{nm}", me.attrs.get(nm))
+        return r, get("autoPingPendingCall"), get("autoPingPending"), get("autoPingTimeoutCall"), timers
+    bad = []
+    n = 0
+    try:
+        for timeout in (0, 3):
+            cases = [("the ping timer fires", strip(send), dict(pendingCall=True, pending=False, timeoutCall=False)),
+                     ("the matching pong arrives", arms[0].body, dict(pendingCall=False, pending=True, timeoutCall=timeout > 0, payload=P))]
+            if timeout:
+                cases.append(("other traffic stands in for the pong", strip(cancel), dict(pendingCall=False, pending=True, timeoutCall=True)))
+            for what, body, st in cases:
+                r, pc, pend, tc, timers = run(body, timeout, **st)
+                n += 1
+                tag = f"{what} (autoPingInterval=5, autoPingTimeout={timeout})"
+                if r[0] == "raise":
+                    bad.append(f"{tag}: raises {r[1]}")
+                    continue
+                alive = (isinstance(pc, Sym) and pc in timers and pc.attrs.get("delay") == 5 and getattr(pc.attrs.get("handler"), "name", "") == "method _sendAutoPing") \
+                    or (pend is not None and what == "the ping timer fires")
+                if not alive:
+                    bad.append(f"{tag}: afterwards no next ping is scheduled and none is outstanding -- no ping is ever sent again on this connection")
+                if pend is not None and timeout and not (isinstance(tc, Sym) and tc in timers and tc.attrs.get("delay") == timeout
+                                                         and getattr(tc.attrs.get("handler"), "name", "") == "method onAutoPingTimeout"):
+                    bad.append(f"{tag}: a ping is outstanding but its pong timeout is not armed")
+                if pend is None and tc is not None:
+                    bad.append(f"{tag}: no ping is outstanding but a pong timeout stays armed (a peer that answered is dropped)")
+    except AnalysisError as e:
+        raise AnalysisError(f"[C17.6-ping-cycle-stays-alive] ping cycle code outside the modelled subset: {e}")
+    ctx.ob(f"every transition of the automatic ping cycle leaves it alive [{n} cells]", not bad, "; ".join(bad[:3]), send.loc())
+    ctx.require(n >= 5, f"only {n} ping cycle cells")
+
+
 def run(ctx):
+    rule_ping_cycle(ctx)
     rule_table(ctx)
     rule_arm(ctx)
     rule_cancel(ctx)
